@@ -333,6 +333,7 @@ type c07Ctx struct {
 //	mustFail  the input is a GenBank file cut before its closing `//`: no record may come out
 func (c *c07Ctx) scanCase(class string, data []byte, mustFail bool) scanResult {
 	r := c.r
+	crumb("scan.auto " + encBytes(data))
 	res := c07Scan(data)
 	c.nScan++
 	r.count("scan/" + class + "/" + res.verdict)
